@@ -64,11 +64,38 @@ fn scenario_sync() {
     assert_eq!(v, THREADS, "{} increments through a shared reference were counted as {}", THREADS, v);
 }
 
+/// Control: a record whose fields are all `Send + Sync` is sent to and shared between threads by safe code
+/// (no `ForceSend`: this only compiles because the record type really is `Send + Sync`) and must survive
+/// every schedule.
+fn scenario_control() {
+    use all_send_sync::*;
+    use std::sync::atomic::Ordering;
+    let counter = thrtypes::ArcCounter(std::sync::Arc::new(std::sync::atomic::AtomicUsize::new(0)));
+    let rec = std::sync::Arc::new(Record0::new(UnpackedRecord0 { a: 1, b: "b".to_string(), c: vec![1, 2, 3], d: counter.clone() }));
+    let mut handles = Vec::new();
+    for _ in 0..THREADS {
+        let shared = rec.clone();
+        let owned = (*rec).clone();
+        handles.push(thread::spawn(move || {
+            shared.d().0.fetch_add(1, Ordering::SeqCst);
+            thread::sleep(std::time::Duration::from_millis(0));
+            owned.d().0.fetch_add(1, Ordering::SeqCst);
+            assert_eq!(owned.c(), &vec![1, 2, 3]);
+            assert_eq!(shared.b(), "b");
+        }));
+    }
+    for h in handles {
+        h.join().unwrap();
+    }
+    assert_eq!(counter.0.load(Ordering::SeqCst), 2 * THREADS);
+}
+
 fn main() {
     let args: Vec<String> = std::env::args().collect();
     let scenario: fn() = match args.get(2).map(|s| s.as_str()) {
         Some("send") => scenario_send,
         Some("sync") => scenario_sync,
+        Some("control") => scenario_control,
         _ => {
             eprintln!("usage: thrsim search|replay send|sync ...");
             std::process::exit(2);
